@@ -11,11 +11,12 @@ func (p *Player) handlePingPacket(packet pk.Packet) error {
 		return Error{err}
 	}
 
-	// Response
-	err := p.c.Conn.WritePacket(pk.Packet{
-		ID:   int32(packetid.ServerboundPong),
-		Data: packet.Data,
-	})
+	// Response. The answer is queued: it must not share the buffer of the received
+	// packet, which goes back to the pool as soon as this handler returns.
+	err := p.c.Conn.WritePacket(pk.Marshal(
+		packetid.ServerboundPong,
+		pingID,
+	))
 	if err != nil {
 		return Error{err}
 	}
